@@ -245,7 +245,7 @@ func runCheck(o *Options) int {
 			defer wg.Done()
 			sem <- struct{}{}
 			defer func() { <-sem }()
-			if ob.goal == "true" {
+			if ob.goal == "true" || trivialGoal(ob.goal) {
 				ob.Res = SolverResult{Status: "unsat", Solver: "syntactic"}
 				return
 			}
@@ -595,4 +595,11 @@ func shortName(n string) string {
 		n = n[len(n)-110:]
 	}
 	return n
+}
+
+var freshNonNilRe = regexp.MustCompile(`^\(not \(= new_[^ ()]+ 0\)\)$`)
+
+// trivialGoal: goals that hold by construction of the encoding (a freshly allocated reference is not nil).
+func trivialGoal(g string) bool {
+	return freshNonNilRe.MatchString(g)
 }
